@@ -119,3 +119,143 @@ fn h_bitor_tables() {
     assert!(bool::from(st(a) | st(b)) == (a && b));
     assert!(bool::from(h(a)) == a && bool::from(st(a)) == a);
 }
+
+// ------------------------------------------------------------------------------------------------
+// Dimension level (one map level less than AccessStructure: tractable)
+// ------------------------------------------------------------------------------------------------
+fn hierarchy3() -> Dimension {
+    // LOW < MED < TOP with ids 0, 1, 2
+    let mut d = Dimension::Hierarchy(Dict::new());
+    d.add_attribute("L".to_string(), EncryptionHint::Classic, None, 0).unwrap();
+    d.add_attribute("M".to_string(), EncryptionHint::Classic, Some("L"), 1).unwrap();
+    d.add_attribute("T".to_string(), EncryptionHint::Classic, Some("M"), 2).unwrap();
+    d
+}
+fn ids_of(d: &Dimension) -> [Option<usize>; 3] {
+    let mut out = [None, None, None];
+    let mut i = 0;
+    for a in d.attributes() {
+        assert!(i < 3);
+        out[i] = Some(a.get_id());
+        i += 1;
+    }
+    out
+}
+
+/// C02 S-restrict: restricting a hierarchy to an attribute keeps exactly the attributes at or below it (a lower
+/// attribute never gives a higher one); restricting an anarchy keeps exactly the named attribute.
+#[kani::proof]
+#[kani::unwind(5)]
+#[kani::stub(alloc::fmt::format, no_format)]
+fn s_restrict_hierarchy_and_anarchy() {
+    let d = hierarchy3();
+    assert!(ids_of(&d) == [Some(0), Some(1), Some(2)], "hierarchy built in the order L < M < T");
+    let which: u8 = kani::any();
+    kani::assume(which < 3);
+    let name = if which == 0 { "L" } else if which == 1 { "M" } else { "T" };
+    let r = d.restrict(name.to_string()).unwrap();
+    kani::cover!(which == 1, "restricted to the middle attribute");
+    let got = ids_of(&r);
+    let expect = if which == 0 { [Some(0), None, None] } else if which == 1 { [Some(0), Some(1), None] } else { [Some(0), Some(1), Some(2)] };
+    assert!(got == expect, "restrict must keep exactly the attributes at or below the named one");
+    assert!(d.restrict("X".to_string()).is_err(), "restricting to an unknown attribute must fail");
+    // anarchy: exactly the named attribute
+    let mut a = Dimension::Anarchy(HashMap::new());
+    a.add_attribute("F".to_string(), EncryptionHint::Classic, None, 7).unwrap();
+    a.add_attribute("H".to_string(), EncryptionHint::Hybridized, None, 8).unwrap();
+    let ra = a.restrict("H".to_string()).unwrap();
+    assert!(ra.nb_attributes() == 1 && ra.get_attribute(&"H".to_string()).unwrap().get_id() == 8, "an attribute of an unordered dimension must not open a sibling");
+    std::mem::forget(ra);
+    std::mem::forget(a);
+    std::mem::forget(r);
+    std::mem::forget(d);
+}
+
+/// C03 E-after / C09: a new attribute lands immediately after `after` (first when None), the others keep their
+/// order and ids; duplicate names and unknown `after` are errors; removal keeps the order of the rest.
+#[kani::proof]
+#[kani::unwind(6)]
+#[kani::stub(alloc::fmt::format, no_format)]
+fn e_hierarchy_add_after_and_errors() {
+    let mut d = hierarchy3();
+    let which: u8 = kani::any();
+    kani::assume(which < 4);
+    let after = if which == 0 { None } else if which == 1 { Some("L") } else if which == 2 { Some("M") } else { Some("T") };
+    assert!(d.add_attribute("N".to_string(), EncryptionHint::Classic, after, 9).is_ok());
+    kani::cover!(which == 2, "inserted in the middle");
+    let mut got = [0usize; 4];
+    let mut i = 0;
+    for a in d.attributes() {
+        assert!(i < 4);
+        got[i] = a.get_id();
+        i += 1;
+    }
+    assert!(i == 4);
+    let expect = if which == 0 { [9, 0, 1, 2] } else if which == 1 { [0, 9, 1, 2] } else if which == 2 { [0, 1, 9, 2] } else { [0, 1, 2, 9] };
+    assert!(got == expect, "new attribute not placed right after `after` / order of the others changed");
+    // documented errors
+    assert!(d.add_attribute("N".to_string(), EncryptionHint::Classic, None, 10).is_err(), "duplicate name accepted");
+    assert!(d.add_attribute("Z".to_string(), EncryptionHint::Classic, Some("Q"), 10).is_err(), "unknown `after` accepted");
+    assert!(d.remove_attribute(&"Q".to_string()).is_err(), "removing an unknown attribute must fail");
+    assert!(d.rename_attribute(&"L".to_string(), "M".to_string()).is_err(), "renaming onto an existing name must fail");
+    assert!(d.disable_attribute(&"Q".to_string()).is_err());
+    // rename keeps id and position; the renamed attribute is found under its new name only
+    assert!(d.rename_attribute(&"M".to_string(), "K".to_string()).is_ok());
+    assert!(d.get_attribute(&"K".to_string()).unwrap().get_id() == 1 && d.get_attribute(&"M".to_string()).is_none());
+    std::mem::forget(d);
+}
+
+// ------------------------------------------------------------------------------------------------
+// C15 Q-dnf: to_dnf is equivalent to the policy under every truth assignment
+// ------------------------------------------------------------------------------------------------
+use crate::abe_policy::AccessPolicy;
+
+fn atom(n: &str) -> AccessPolicy {
+    AccessPolicy::Term(QualifiedAttribute::new("D", n))
+}
+fn truth(q: &QualifiedAttribute, v: [bool; 3]) -> bool {
+    match q.name.as_bytes()[0] {
+        b'a' => v[0],
+        b'b' => v[1],
+        _ => v[2],
+    }
+}
+fn eval(p: &AccessPolicy, v: [bool; 3]) -> bool {
+    match p {
+        AccessPolicy::Broadcast => true,
+        AccessPolicy::Term(q) => truth(q, v),
+        AccessPolicy::Conjunction(l, r) => eval(l, v) && eval(r, v),
+        AccessPolicy::Disjunction(l, r) => eval(l, v) || eval(r, v),
+    }
+}
+fn eval_dnf(dnf: &[Vec<QualifiedAttribute>], v: [bool; 3]) -> bool {
+    let mut any = false;
+    for clause in dnf {
+        let mut all = true;
+        for q in clause {
+            all = all && truth(q, v);
+        }
+        any = any || all;
+    }
+    any
+}
+macro_rules! dnf_harness {
+    ($name:ident, $build:expr) => {
+        #[kani::proof]
+        #[kani::unwind(6)]
+        #[kani::stub(alloc::fmt::format, no_format)]
+        fn $name() {
+            let p: AccessPolicy = $build;
+            let v: [bool; 3] = kani::any();
+            let dnf = p.to_dnf();
+            kani::cover!(eval(&p, v), "policy satisfied");
+            kani::cover!(!eval(&p, v), "policy not satisfied");
+            assert!(eval_dnf(&dnf, v) == eval(&p, v), "the DNF is not logically equivalent to the policy");
+            std::mem::forget(dnf);
+            std::mem::forget(p);
+        }
+    };
+}
+dnf_harness!(q_dnf_and_over_or, atom("a") & (atom("b") | atom("c")));
+dnf_harness!(q_dnf_or_of_ands, (atom("a") & atom("b")) | (atom("c") & atom("a")));
+dnf_harness!(q_dnf_and_of_ors, (atom("a") | atom("b")) & (atom("c") | atom("a")));
